@@ -98,8 +98,16 @@ class Tmpl(V):
         out = set()
         for p in self.parts:
             if isinstance(p, Hole):
-                out |= set(p.val.tags)
+                t = set(p.val.tags)
+                if p.conv == "r":  # repr() is the sanitiser: the text is a literal of the value
+                    t -= {"RAW", "LITERAL", "OPTIONAL"}
+                    t.add("REPR")
+                out |= t
         return frozenset(out)
+
+    def skeleton(self) -> str:
+        """Literal chunks with anonymous holes -- a line-number- and name-independent key."""
+        return "".join(p if isinstance(p, str) else ("{!r}" if p.conv == "r" else "{}") for p in self.parts)
 
     def holes(self) -> List[Hole]:
         return [p for p in self.parts if isinstance(p, Hole)]
